@@ -36,6 +36,9 @@ def enumerate_cases(tier, seed):
                 continue  # u' is observed exactly (damp=0): its corrected std is exactly zero, the estimate is 0/0-degenerate
             cases.append(dict(id=f"{est}/{ssm}/{calib}/{lin}/d{d}m{m}q{q}/{fname}", group=f"{d}{m}{q}/{ssm}/{calib}", est=est, ssm=ssm, calib=calib, lin=lin, d=d, m=m, q=q,
                               field=fname, init_id=0, tier=tier, weight=40))
+    for ssm in ("dense", "isotropic", "blockdiag"):
+        for est in ("residual", "state0"):
+            cases.append(dict(id=f"pytree/{est}/{ssm}", group=f"pytree/{ssm}", part="pytree", est=est, ssm=ssm, tier=tier, weight=20))
     return cases
 
 
@@ -56,7 +59,7 @@ def run_cases(cases):
 
     jaxenv.setup()
     for case in cases:
-        yield core.guarded(case, _run)
+        yield core.guarded(case, _run_pytree if case.get("part") == "pytree" else _run)
 
 
 _CORE = {}
@@ -248,3 +251,51 @@ def _with_poisoned_fun_evals(state, fac):
     noise = type(fx.noise)(fac * fx.noise.mean_flat, fx.noise.cholesky_flat, fx.noise.tree_flatten)
     fx2 = type(fx)(fx.A, noise, fx.to_latent, fx.to_observed)
     return dataclasses.replace(state, fun_evals=fx2)
+
+
+def _run_pytree(case):
+    """The estimate for a pytree-structured state equals the estimate for the flattened state (the contraction rate is the
+    number of Taylor coefficients, not the number of array leaves)."""
+    import jax
+    import jax.numpy as jnp
+    from probdiffeq import probdiffeq
+
+    from mc import impl
+
+    fails = []
+    n = 0
+    worst = 0.0
+
+    def build(tree):
+        if tree:
+            vf = probdiffeq.ode(lambda u, *, t: {"a": -u["a"] * u["b"] + t, "b": 0.5 * u["a"] - u["b"]}, jacobian=probdiffeq.jacobian_materialize())
+            u0 = {"a": jnp.asarray([0.5]), "b": jnp.asarray([0.25])}
+        else:
+            vf = probdiffeq.ode(lambda u, *, t: jnp.stack([-u[0] * u[1] + t, 0.5 * u[0] - u[1]]), jacobian=probdiffeq.jacobian_materialize())
+            u0 = jnp.asarray([0.5, 0.25])
+        ssm = impl.SSM[case["ssm"]]()
+        tc, _ = probdiffeq.jetexpand_ode_unroll(num=3)(vf, [u0], t=0.0)
+        prior = ssm.prior_wiener_integrated(tc)
+        con = ssm.constraint_ode_ts0(vf)
+        solver = probdiffeq.solver_mle(strategy=probdiffeq.strategy_filter(), constraint=con)
+        est = probdiffeq.error_residual_std(constraint=con) if case["est"] == "residual" else probdiffeq.error_state_std(constraint=con)
+        s0 = solver.init(0.0, prior, damp=0.0)
+        s1 = solver.step(s0, dt=0.125, damp=0.0)
+        out = []
+        for dt in (2.0 ** -6, 0.125, 0.5):
+            s2 = solver.step(s1, dt=dt, damp=0.0)
+            for atol, rtol in ((1e-6, 1e-3), (1e-2, 1e-2)):
+                out.append(float(est.estimate_error_norm(est.init_error(), s1, s2, dt=dt, atol=atol, rtol=rtol, damp=0.0)[0]))
+        return out
+
+    a, b = build(True), build(False)
+    for i, (x, y) in enumerate(zip(a, b)):
+        n += 1
+        dev = abs(x - y) / abs(y)
+        worst = max(worst, dev / 1e-9)
+        if not dev <= 1e-9:
+            fails.append(core.fail("pytree_state_changes_error_power", f"evaluation {i}: tree {x!r} vs flat {y!r}"))
+    seen = {}
+    for f in fails:
+        seen.setdefault(f["kind"], f)
+    return core.result(case, list(seen.values()), transitions=n, traces=n, states=n, outcome="ok" if not fails else "|".join(sorted(seen)), dev=worst, sample=dict(values=a[:2]))
